@@ -65,6 +65,23 @@ func uploadScenario(fault string, size int, chunk int) string {
 			}
 			w.WriteHeader(http.StatusInsufficientStorage)
 			w.Write([]byte(`{"error":"quota exceeded","detail":"` + strings.Repeat("x", 3000) + `"}`))
+		case "early-text-endless", "partial-text-endless":
+			// a refusal with a plain-text explanation that never ends: a kilobyte and more goes out, then the server keeps
+			// the response open; the client has the status and all of the text it keeps, and must not wait for the rest
+			if fault == "partial-text-endless" {
+				io.CopyN(io.Discard, r.Body, int64(size/2))
+				w.Header().Set("Content-Type", "text/plain; charset=utf-8")
+			}
+			w.WriteHeader(http.StatusInsufficientStorage)
+			w.Write([]byte(strings.Repeat("quota exceeded, and a long story about it. ", 60)))
+			if f, ok := w.(http.Flusher); ok {
+				f.Flush()
+			}
+			select {
+			case <-release:
+			case <-r.Context().Done():
+			case <-time.After(30 * time.Second):
+			}
 		case "drop":
 			io.CopyN(io.Discard, r.Body, int64(size/3))
 			if hj, ok := w.(http.Hijacker); ok {
@@ -135,7 +152,7 @@ func uploadScenario(fault string, size int, chunk int) string {
 	}()
 	var res string
 	watchdog := 15 * time.Second
-	if fault == "early2xx-stall" {
+	if fault == "early2xx-stall" || strings.HasSuffix(fault, "-text-endless") {
 		watchdog = 6 * time.Second // the answer is there from the start: Close has nothing to wait for
 	}
 	select {
@@ -188,7 +205,7 @@ func uploadScenario(fault string, size int, chunk int) string {
 
 func famUpload(o *Out, r *RNG, thorough bool) {
 	sizes := []int{0, 4096, 5 << 20, 16 << 20}
-	for _, fault := range []string{"ok", "early", "early2xx", "early2xx-stall", "early308", "late300", "partial", "partial-json", "partial-bin", "drop", "stall"} {
+	for _, fault := range []string{"ok", "early", "early2xx", "early2xx-stall", "early308", "late300", "partial", "partial-json", "partial-bin", "early-text-endless", "partial-text-endless", "drop", "stall"} {
 		for _, size := range sizes {
 			chunks := []int{64 << 10}
 			if size == 4096 {
